@@ -93,5 +93,11 @@ func RoundEven(x complex128, prec int) complex128 {
 
 // Same returns true when the inputs have the same value, allowing NaN equality.
 func Same(a, b complex128) bool {
-	return a == b || (cmplx.IsNaN(a) && cmplx.IsNaN(b))
+	return a == b || (hasNaN(a) && hasNaN(b))
+}
+
+// hasNaN reports whether either part of c is NaN. Unlike cmplx.IsNaN it does
+// not give precedence to an infinite part.
+func hasNaN(c complex128) bool {
+	return math.IsNaN(real(c)) || math.IsNaN(imag(c))
 }
